@@ -160,6 +160,34 @@ def check_quotes(v, line_text):
     return None
 
 
+def split_lines_correspondence(rng, n: int, res: core.Result):
+    """direct tie of the model's `splitLines` to /repo's `split_lines` (the function every line look-up of the ignore engine and of
+    several linters goes through): random texts over ordinary characters, every kind of line end and the characters that only
+    str.splitlines() takes for one"""
+    try:
+        from src.core.constants import split_lines
+    except ImportError as exc:
+        res.disagreements.append(core.Disagreement(case={"kind": "split_lines"}, impl=str(exc), model=None, spec=None, property_fails=False,
+                                                   note="src.core.constants.split_lines is gone: the model of line splitting is no longer tied to the code"))
+        return
+    alphabet = ["a", "b", " ", "#", "x", "\n", "\n", "\n", "\r\n", "\r", "\x0c", "\x0b", "\x1c", "\x1d", "\x1e", "\x85", "\u2028", "\u2029", "\t", "é", "\U0001F600"]
+    drv = core.Driver()
+    for _ in range(n):
+        text = "".join(rng.choice(alphabet) for _ in range(rng.randint(0, 40)))
+        res.evaluations += 1
+        want = split_lines(text)
+        m = drv.call({"prop": PROP, "op": "splitLines", "text": [ord(c) for c in text]})
+        got = ["".join(chr(c) for c in line) for line in m["lines"]]
+        res.bump("split_lines texts", "with odd line-end characters" if any(c in text for c in "\x0c\x0b\x1c\x1d\x1e\x85\u2028\u2029") else "plain")
+        if len(want) >= 2:
+            res.nontrivial.add(core.canon(["split", text]))
+        if got != want:
+            res.disagreements.append(core.Disagreement(case={"kind": "split_lines", "text": text}, impl=want, model=got, spec=None,
+                                                       property_fails=any(("\n" in ln or "\r" in ln) for ln in want) or len(want) != len(got),
+                                                       note=f"split_lines({text!r}) = {want!r}, model {got!r}"))
+    drv.close()
+
+
 def run(tier: str, seed: int, st: core.ProofStatus) -> core.Result:
     res = core.Result()
     res.rule = ("projects of 2-5 generated files (py/ts/rs) of 3-7 planted constructs each in 1-4 styles (multi-line headers, decorators/attributes, "
@@ -167,6 +195,7 @@ def run(tier: str, seed: int, st: core.ProofStatus) -> core.Result:
                 "leading/separating blank and comment lines, 20% CRLF, 25% without final newline, 70% with a duplicated block in two files (one copy with "
                 "interleaved blank/comment lines); 16 linter commands; non-trivial = a file in which at least three planted constructs are reported")
     rng = core.sub_rng(seed, PROP, tier)
+    split_lines_correspondence(rng, 400 if tier == "quick" else 6000, res)
     n = 60 if tier == "quick" else 1200
     projects = [gen_project(rng) for _ in range(n)]
     root = core.scratch_dir("c12")
